@@ -38,6 +38,9 @@ func SentinelMiddleware(opts ...Option) echo.MiddlewareFunc {
 			defer entry.Exit()
 
 			err = next(c)
+			if err != nil {
+				sentinel.TraceError(entry, err)
+			}
 			return err
 		}
 
